@@ -340,6 +340,11 @@ int main (int argc, char *argv[]) {
     if(matched > 0)
         write_data(zck, arguments.split_string, matched);
 
+    if(in_size < 0) {
+        LOG_ERROR("Error reading %s", arguments.args[0]);
+        perror("");
+        exit(1);
+    }
     close(in_fd);
 
     if(!zck_close(zck)) {
